@@ -162,6 +162,50 @@ def r11_7(ctx, rep):
                % (prefix, W, G, L, suffix), where=where_p)
 
 
+def r11_8(ctx, rep, only=None):
+    """R11.8: the getters of Config are a table over its fields: a public getter named like a field reads that field and no other."""
+    rep.rule("R11.8", "configuration table: every public Config getter that is named like a Config field reads exactly that field (and no "
+                      "other field of the configuration): the limit that closes a chunk, sizes the cache or enables tail truncation is the one "
+                      "the user configured under that name")
+    adt = ctx.facts.adts.get("config::Config")
+    if not rep.expect("R11.8", "struct Config", adt is not None):
+        return
+    fields = [f["name"] for f in adt["variants"][0]["fields"]]
+    n = 0
+    for b in ctx.facts.doc["bodies"]:
+        if b.get("impl_self") != "config::Config" or not b.get("pub") or b.get("argc") != 1:
+            continue
+        nm = b["key"].split("::")[-1]
+        if nm not in fields or (only and nm not in only):
+            continue
+        n += 1
+        reads = set()
+
+        def scan(o):
+            if isinstance(o, dict):
+                pr = o.get("proj")
+                if isinstance(pr, list):
+                    for el in pr:
+                        if isinstance(el, dict) and el.get("adt") == "config::Config" and "n" in el:
+                            reads.add(el["n"])
+                for v in o.values():
+                    scan(v)
+            elif isinstance(o, list):
+                for v in o:
+                    scan(v)
+        for blk in b["blocks"]:
+            if not blk.get("cleanup"):
+                scan(blk)
+        where = "%s:%s" % (b["file"], b["line"])
+        if reads == {nm}:
+            rep.ok("R11.8", "Config::%s" % nm, "reads only its own field", where=where, nontrivial=False)
+        else:
+            rep.violation("R11.8", "Config::%s|reads:%s" % (nm, ",".join(sorted(reads)) or "nothing"), "Config::%s" % nm,
+                          "the getter `%s` reads %s instead of the field of its own name: the configured `%s` is ignored / another limit is "
+                          "used in its place" % (nm, sorted(reads) or "no field", nm), where=where)
+    rep.floor("R11.8", "Config getters named like a field", n, 4 if not only else len(only))
+
+
 def run(ctx, rep):
     rep.rule("R11.1", "the ChunkId given to the chunk-creating call at rotation is the end of the open chunk's last segment, read before self.open is replaced")
     rep.rule("R11.2", "the value pushed to global_offsets when a record is journalled is offsets[len-1] + (byte count returned by encoding that record into pending_data)")
@@ -423,6 +467,7 @@ def run(ctx, rep):
 
     # ---------------- R11.7 -------------------------------------------------------------
     r11_7(ctx, rep)
+    r11_8(ctx, rep)
 
     # ---------------- R11.6 -------------------------------------------------------------
     rep.rule("R11.6", "= R03.4 / R04.2 / R04.3 / R04.8: every batch element is written completely (write_all) to the file whose name is its offset; the worker's file list keeps its order (the newest file is the write target)")
